@@ -78,6 +78,23 @@ theorem paused_phases_no_writes (cfg : Cfg) (ow : Owner) (prev : List Prev) (rem
         | collision r => simpa using hnw
         | err => simpa using hnw
 
+theorem foldl_sync_events (rm : Remotes) (hsync : ∀ o ph w, (rm.sync o ph w).events = w.events) (mem : OSet) :
+    ∀ (phs : List PhaseSpec) (w : World), (phs.foldl (fun w ph => rm.sync mem ph w) w).events = w.events := by
+  intro phs
+  induction phs with
+  | nil => intro w; rfl
+  | cons ph rest ih => intro w; simp only [List.foldl_cons]; rw [ih, hsync]
+
+/-- handing the pause to the remaining delegated phases (fix C09-a) writes no managed object. -/
+theorem afterPhases_events (rm : Remotes) (hsync : ∀ o ph w, (rm.sync o ph w).events = w.events)
+    (mem : OSet) (pr : PhasesRes) (w : World) : (afterPhases rm mem pr w).events = w.events := by
+  unfold afterPhases
+  split
+  · split
+    · exact foldl_sync_events rm hsync mem _ w
+    · rfl
+  · rfl
+
 /-- **paused_no_object_writes (controller pass).** While an ObjectSet is paused and neither
 deleted nor archived, a whole controller pass — finalizer handling, revision assignment, phases,
 status — issues no create, patch or delete for any managed object, whatever the store holds and
@@ -85,6 +102,7 @@ whatever third parties do in between. -/
 theorem paused_no_object_writes (cfg : Cfg) (rm : Remotes) (name : String) (s : Sys) (mem : OSet)
     (hget : s.sets name = some mem)
     (hrem : ∀ o ph w, (rm.recon o ph w).1.events = w.events)
+    (hsync : ∀ o ph w, (rm.sync o ph w).events = w.events)
     (hpaused : mem.lifecycle = .paused) (hnd : mem.deleting = false) :
     (reconcile cfg rm name s).1.w.events = s.w.events := by
   simp only [reconcile, hget]
@@ -157,16 +175,17 @@ theorem paused_no_object_writes (cfg : Cfg) (rm : Remotes) (name : String) (s : 
               cases hrp : reconcilePhases cfg m2.owner (lookupPrev s2 m2) (rm.recon m2) m2.phases s2.w [] with
               | mk w3 pr =>
                 rw [hrp] at hph; simp only at hph
+                have hap := afterPhases_events rm hsync m2 pr w3
                 simp only
                 cases pr with
                 | error e =>
                   cases e <;>
                     simp only [statusFromError, Pko.Lemmas.ObjectSet.afterStatus_fst, Pko.Lemmas.ObjectSet.updateStatus_events] <;>
-                    rw [hph, hrev.1, hf]
+                    rw [hap, hph, hrev.1, hf]
                 | ok v =>
                   obtain ⟨co, failing⟩ := v
                   simp only [finish, Pko.Lemmas.ObjectSet.afterStatus_fst, Pko.Lemmas.ObjectSet.updateStatus_events]
-                  rw [hph, hrev.1, hf]
+                  rw [hap, hph, hrev.1, hf]
 
 /-- the pass ends with exactly one status update carrying `finishMem` of the derived status. -/
 theorem finish_event (s : Sys) (m : OSet) (res : Res) :
